@@ -78,6 +78,9 @@ func runFlowCase(c *vf.Ctx, fc *flowCase) *flowResult {
 		if fc.Tweak != nil {
 			fc.Tweak(s)
 		}
+		if fc.Template > pgen.NTemplates && len(s.LenChoices) == 0 {
+			s.LenChoices = []int{2, 3} // file skeletons: several forks each
+		}
 		if fc.SlowOne > 0 {
 			if paths := vmon.StageCallPaths(p); len(paths) > 0 {
 				ks := paths
@@ -432,7 +435,7 @@ func init() {
 				cfg.PProject = 60
 				seed := c.Seed*1000003 + int64(i)
 				cases = append(cases, &flowCase{Index: i, Seed: seed, Cfg: cfg, Vdr: "disable",
-					DelayMs: []int{0, 30, 120}[i%3], Race: !c.Quick() && i%5 == 0})
+					DelayMs: []int{0, 30, 120}[i%3], Race: !c.Quick() && i%5 == 0, Template: tmplFor(i)})
 			}
 			return cases
 		},
@@ -516,7 +519,8 @@ func init() {
 				cfg.PLiteral = 8
 				seed := c.Seed*1000003 + 900000 + int64(i)
 				cases = append(cases, &flowCase{Index: i, Seed: seed, Cfg: cfg, Vdr: modes[i%3],
-					DelayMs: []int{0, 80, 250}[(i/3)%3], Delays: hook[i%len(hook)], Race: !c.Quick() && i%4 == 0})
+					DelayMs: []int{0, 80, 250}[(i/3)%3], Delays: hook[i%len(hook)], Race: !c.Quick() && i%4 == 0,
+					Template: fileTmplFor(i)})
 			}
 			return cases
 		},
@@ -531,6 +535,15 @@ func pickTimeout(t time.Duration) time.Duration {
 		return 180 * time.Second
 	}
 	return t
+}
+
+// fileTmplFor: every seventh case is a file-passing skeleton.
+func fileTmplFor(i int) int {
+	if i%7 != 4 {
+		return 0
+	}
+	j := i / 7 // (skeleton, i%3) pairs cycle through all combinations
+	return 1 + pgen.NTemplates + (j+j/3)%pgen.NFileTemplates
 }
 
 // tmplFor: every third case is a skeleton program.
@@ -559,7 +572,7 @@ func init() {
 				big := i%5 == 4
 				outside := i%2 == 1
 				cases = append(cases, &flowCase{Index: i, Seed: seed, Cfg: cfg, Vdr: []string{"disable", "rolling", "strict"}[i%3],
-					Reattach: i%4 == 1 || i%4 == 2,
+					Reattach: i%4 == 1 || i%4 == 2, Template: fileTmplFor(i),
 					Tweak: func(s *pgen.Spec) {
 						s.PMissingFile = 12
 						s.PNull = 8
@@ -593,7 +606,8 @@ func init() {
 				cfg.PLiteral = 8
 				seed := c.Seed*1000003 + 1400000 + int64(i)
 				cases = append(cases, &flowCase{Index: i, Seed: seed, Cfg: cfg, Vdr: modes[i%3],
-					DelayMs: []int{0, 50, 150}[(i/3)%3], Delays: hook[i%len(hook)], Race: !c.Quick() && i%4 == 0})
+					DelayMs: []int{0, 50, 150}[(i/3)%3], Delays: hook[i%len(hook)], Race: !c.Quick() && i%4 == 0,
+					Template: fileTmplFor(i)})
 			}
 			return cases
 		},
